@@ -60,6 +60,10 @@ class EmlSeed:
             spec = E.dataset_doc(rng, plan, small=rng.random() < 0.7)
             return {"k": "eml_seed", "s": g.sess, "spec": spec, "fault": fault}
         r = rng.random()
+        if mode in ("mixed", "fragment") and rng.random() < g.cfg.get("p_rule_seed", 0.35):
+            # any element of the rule table, built by walking its rule (all 107 rules get visited)
+            spec = RV.safe_gen_tree(rng, RV.random_element(rng), [rng.choice([8, 25, 60])])
+            return {"k": "eml_seed", "s": g.sess, "spec": spec, "via": "rule"}
         if mode == "fragment" or (mode == "mixed" and r < 0.35):
             spec = E.fragment(rng)
         elif r < 0.55:
